@@ -59,8 +59,8 @@ def step (_ : Unit) (line : String) : Unit × String :=
          if n == 0 || n > 12 || ab.length != n * (n + 1) then "bad-op" else
          let rows := (List.range n).map fun i => (List.range (n + 1)).map fun j => ab.getD (i + n * j) 0.0
          match solveAb rows with
-         | .error e => e.name
-         | .ok (ill, x) => (if ill then "ill_conditioned " else "ok ") ++ fmtFs x
+         | none => "div_zero"
+         | some (ill, x) => (if ill then "ill_conditioned " else "ok ") ++ fmtFs x
        | _, _ => "bad-op")
     | "kexact_aux" :: tw :: cs :: ns :: rest =>
       (match tw.toNat?, cs.toInt?, ns.toNat?, parseItems rest with
